@@ -14,7 +14,8 @@
    which error a range raises; the undefined comparison; addition outside the range.
    Strict (drift only, never an alarm): make(text) = from_text(text); a range error is a
    dns.exception.SyntaxError; Serial operands of + ; subtraction and negative amounts as
-   the inverse of addition; ValueError outside the range; comparison with a plain int. *)
+   the inverse of addition; ValueError outside the range; comparison with a plain int; all
+   four orderings of the undefined pair false. *)
 EXTENDS TtlRange, VTrace
 
 CONSTANTS Strict, ForeignDigits
@@ -66,7 +67,6 @@ TRange ==
 
 RowShape(operand, bits, lo, n) == IF operand = "serial" \/ operand = "cmp" THEN lo = 0 /\ n = Pow2(bits)
                                   ELSE lo = -Pow2(bits) /\ n = 2 * Pow2(bits) + 1
-TRowLen == e.op = "rowlen" /\ C("RowComplete", RowShape(e.operand, e.bits, e.lo, e.n)) /\ Adv
 
 (* one comparison result x = <<lt, le, gt, ge, eq, ne>> (1 true, 0 false, other = raised) *)
 CmpOk(x, eq, lt, gt, undef) ==
@@ -79,6 +79,8 @@ TCmp ==
           C("SerialCompare_" \o e.operand, \A k \in 1..Len(e.res) :
               LET b == e.lo + k - 1
               IN  CmpOk(e.res[k], SEq(e.a, b), SLt(e.a, b, e.bits), SGt(e.a, b, e.bits), SUndef(e.a, b, e.bits)))
+    /\ (Strict => C("SerialUndefinedPairAllFalse", \A k \in 1..Len(e.res) :
+              SUndef(e.a, e.lo + k - 1, e.bits) => SubSeq(e.res[k], 1, 4) = <<0, 0, 0, 0>>))
     /\ Adv
 
 (* one addition result: the new value, or -1 ValueError, -2 another error, -3 not a Serial of this width *)
@@ -111,6 +113,6 @@ TAdd32 ==
     /\ (Strict => C("SerialArithmeticStrict32_" \o e.kind \o "_" \o e.operand, e.res = Add32Expect(e.kind, e.a, e.neg, e.n)))
     /\ Adv
 
-TraceNext == l <= Len(Ev(t)) /\ (TTtl \/ TMake \/ TVia \/ TRange \/ TCmp \/ TAdd \/ TRowLen \/ TCmp32 \/ TAdd32)
+TraceNext == l <= Len(Ev(t)) /\ (TTtl \/ TMake \/ TVia \/ TRange \/ TCmp \/ TAdd \/ TCmp32 \/ TAdd32)
 Accepted == Accepting(t, l)
 =============================================================================
